@@ -331,7 +331,22 @@ func runOp(c *kit.Ctx, w *world, idx int) {
 	if placed > 0 || len(results.NewNodeClaims) > 0 || len(classes) > 0 {
 		key = fmt.Sprintf("%s/%s/%d/%d/%d/%s/%s", op.Kind, outcome, placed, len(results.NewNodeClaims), len(results.PodErrors), strings.Join(classes, ","), digestOf(w.j)[:8])
 	}
-	c.AddCase(term, jc, key)
+	id := c.AddCase(term, jc, key)
+	// Go-side oracle (the same predicate as Model.holds_b), so that a concrete failing input is reported even when
+	// the Coq side cannot be evaluated
+	ok := nWrites == 0
+	for _, cl := range classes {
+		if op.Kind == "sim" || (cl != clNominations && cl != clBook) {
+			ok = false
+		}
+	}
+	if !ok {
+		what := fmt.Sprintf("%s changed the world: classes %v, api writes %d", lo.Ternary(op.Kind == "sim", "SimulateScheduling", "Provisioner.Schedule"), classes, nWrites)
+		if len(details) > 0 {
+			what += fmt.Sprintf(" (first: %s %s)", details[0].Class, details[0].What)
+		}
+		c.Fail(id, what, jc.KfKey, jc)
+	}
 }
 
 // aliasCase observes, on this world's nodes, which fields of a DeepCopyNodes copy still reach memory
